@@ -88,7 +88,9 @@ def _ctx_with_real_set(*a, **kw):
     limit after ~1000 add/remove operations).  When the printers run untraced
     the context gets a real set instead."""
     with NoTracing():
-        if 'visited' in kw:
+        # only the outermost creation (python_to_sdocs) passes a shell set; the
+        # contexts derived from it must keep sharing the same real set
+        if 'visited' in kw and type(kw['visited']) is not set:
             kw['visited'] = set()
         return _orig_ctx(*a, **kw)
 
@@ -417,3 +419,9 @@ class AtomCase(base.CaseBase):
     def run_native(self, args):
         return self.run([args['a'], args['b'], args['c'], args['d'], args['e']],
                         args['w'], args['rw'])
+
+
+# the import-time state of every module-level container of the package (before
+# anything was printed in this process); see fresh_state()
+from vf import pkgstate as _pkgstate  # noqa: E402
+_pkgstate.snapshot_generic()
